@@ -134,11 +134,11 @@ def do(op, w, args, py):
     if op == "multiset":
         return drive(c.multiset({conv(o): rig.from_tuple(v) for o, v in args["pairs"]}))
     if op == "walk":
-        return drive_agen(c.walk(conv(args["root"])), limit=400)
+        return drive_agen(c.walk(conv(args["root"])), limit=max(400, 2 * len(w.agent.db) + 50))
     if op == "multiwalk":
-        return drive_agen(c.multiwalk([conv(r) for r in args["roots"]]), limit=400)
+        return drive_agen(c.multiwalk([conv(r) for r in args["roots"]]), limit=max(400, 2 * len(w.agent.db) + 50))
     if op == "bulkwalk":
-        return drive_agen(c.bulkwalk([conv(r) for r in args["roots"]], bulk_size=args["bulk"]), limit=400)
+        return drive_agen(c.bulkwalk([conv(r) for r in args["roots"]], bulk_size=args["bulk"]), limit=max(400, 2 * len(w.agent.db) + 50))
     if op == "bulkget":
         return drive(c.bulkget([conv(o) for o in args["scalars"]], [conv(o) for o in args["repeaters"]], max_list_size=args["maxrep"]))
     if op == "table":
@@ -205,7 +205,7 @@ def run_case(R, level, op, db, args):
     wr = World(level, db)
     for w in (wp, wr):
         w.prime()
-        w.seam.budget = 200
+        w.seam.budget = 200 + 3 * len(db)
     try:
         rp = rig.outcome(lambda: do(op, wp, args, True))
         rr = rig.outcome(lambda: do(op, wr, args, False))
@@ -332,6 +332,18 @@ def odd_values(R):
 def run(R):
     if R.shard == 1 % R.nshards:
         odd_values(R)
+    if R.shard == 2 % R.nshards:
+        # a table of more than 2000 rows (and a walk of more than 4000 instances)
+        table = (1, 3, 6, 1, 4, 1, 4242, 9)
+        entry = table + (1,)
+        big = {}
+        for r in range(1, 2051 if R.tier == "quick" else 4100):
+            big[entry + (1, r)] = ("int", r)
+            big[entry + (2, r)] = ("str", b"r%d" % r) if r % 3 else ("tt", r)
+        big[(1, 3, 6, 1, 4, 1, 4242, 10, 0)] = ("int", 0)
+        for op, args in (("bulktable", {"table": table, "bulk": 50}), ("table", {"entry": entry}), ("bulkwalk", {"roots": [entry + (1,), entry + (2,)], "bulk": 40})):
+            run_case(R, "v2c", op, big, args)
+            R.mon["big_table_cases"] += 1
     n = N_CASES[R.tier]
     levels = rig.LEVEL_CYCLE_ALL
     for i in range(n):
